@@ -640,5 +640,231 @@ def declAfter (maxInstances : Nat) : (String → Option Inst) → List LOp → (
   | D, .look _ :: ops => declAfter maxInstances D ops
   | D, .construct _ _ es :: ops => if es.length > maxInstances then declAfter maxInstances D ops else declAfter maxInstances (declOf es) ops
 
+/-! ### NULL as the class argument (misuse; outside "every class", modelled so that the audited file says what the code does)
+
+  `Type_Instance(self, NULL)`: no `Type_Cache_Entry` matches (`cls is lit` compares with the address of a library class);
+  `Type_Scan(self, NULL)`: the first loop's test `t->cls is cls` is TRUE for the first triple whose `cls` word is still NULL
+  (not yet memoised) and returns its instance; when every triple is memoised the second loop evaluates
+  `Type_Builtin_Name(NULL)` — a read through the NULL pointer — unless there is no triple at all (the loop body never runs). -/
+
+/-- `Type_Scan(self, NULL)` / `Type_Instance(self, NULL)` for `self` a type object -/
+def scanNull (t : TypeRec) : TypeRec × Outcome (Option Inst) :=
+  let t := { t with hdr := true }
+  match t.entries.find? (fun e => e.memo.isNone) with
+  | some e => (t, .ok (some e.inst))
+  | none => if t.entries.isEmpty then (t, .ok none) else (t, .ub)
+
+/-! ### class objects are type objects: their names are read when a lookup runs, their addresses are memoised
+
+  Any type object can be used as a class.  `Type_Scan` memoises the ADDRESS of the class object in the `cls` word of the
+  matching triple and later answers by address alone (first loop), while the by-name loop reads the class's `__Name` at
+  the time of the lookup.  A run-time type object has no destructor and `Type_New` rewrites `__Name` in place, and a
+  deleted type object's address can be handed out again by the allocator: both change what a memoised address MEANS
+  without touching the word that holds it.
+
+  Representation: a `Cls` value is "address + the `__Name` of the object that lives there NOW" — `name` is a derived
+  attribute of the pointee.  `Heap.retarget` is therefore part of every write of `__Name`: all `cls` words that hold the
+  address read, from then on, as the class with the new name (the words themselves are not written by the C code).
+  Equality of `Cls` values is pointer equality as long as every `cls` word's derived name is the current name of its
+  pointee or the pointee is dead (`Coherent`, proved to be preserved; `ptrEq_iff_eq`).  Library classes (static, never
+  re-constructed) have address 0 in this numbering and are told apart by their names; the run-time type object at heap
+  address `a` is the class value `⟨a + 1, name⟩`. -/
+
+/-- a reference to a class object in a program: a library class, or the run-time type object living at an address -/
+inductive CRef where
+  | lib (name : String)
+  | rt (addr : Nat)
+deriving DecidableEq, Repr, Inhabited
+
+/-- the run-time type objects of a program: their records (by address; also the records of the static type objects a
+    program uses, which never change name) and the `__Name` cell of every LIVE run-time type object -/
+structure Heap where
+  w : World
+  names : List (Nat × String)
+deriving Repr, Inhabited
+
+def Heap.nameAt (h : Heap) (a : Nat) : Option String := (h.names.find? (fun p => p.1 = a)).map (·.2)
+
+/-- the class value a reference denotes now: `Type_Builtin_Name(cls)` read at the time of the lookup; `none`: nothing lives there -/
+def Heap.resolve (h : Heap) : CRef → Option Cls
+  | .lib n => some ⟨0, n⟩
+  | .rt a => (h.nameAt a).map (fun n => ⟨a + 1, n⟩)
+
+/-- every `cls` word of the record that holds address `id` now reads as the class named `name` -/
+def retargetEntry (id : Nat) (name : String) (e : Entry) : Entry :=
+  match e.memo with
+  | some c => if c.id = id then { e with memo := some ⟨id, name⟩ } else e
+  | none => e
+
+def retargetRec (id : Nat) (name : String) (t : TypeRec) : TypeRec :=
+  { t with entries := t.entries.map (retargetEntry id name) }
+
+/-- the effect of writing `name` into the `__Name` cell of the object at `addr` on every alias of that address -/
+def Heap.retarget (h : Heap) (addr : Nat) (name : String) : Heap :=
+  { h with w := { h.w with types := h.w.types.map (fun p => (p.1, retargetRec (addr + 1) name p.2)) } }
+
+/-- `Type_New` at address `addr` — a new run-time type object there (fresh storage, or storage of a deleted type object
+    that the allocator hands out again) or `destruct(T); construct(T, …)` of the live one in place: refused above
+    CELLO_MAX_INSTANCES with nothing written; otherwise `__Name` := `name` (seen through every alias of the address) and
+    the record becomes the fresh record of the instance list (`C08_reconstruct_in_place`: what the word-level `Type_New`
+    produces from any previous contents). -/
+def Heap.construct (L : Layout) (h : Heap) (addr : Nat) (name : String) (es : List (String × Inst)) : Heap × Outcome Unit :=
+  if es.length > L.maxInstances then (h, .raised .OutOfMemoryError)
+  else
+    let hs : Bool × Bool := match h.w.get addr with
+      | some t => (t.hdr, t.sentinel)
+      | none => (true, false)
+    let h1 := h.retarget addr name
+    ({ w := h1.w.put addr (mkType L.cacheNum hs.1 es hs.2), names := (addr, name) :: h1.names.filter (fun p => p.1 ≠ addr) }, .ok ())
+
+/-- `del(T)`: the object is gone; `cls` words elsewhere that hold its address are NOT touched (they dangle) -/
+def Heap.delete (h : Heap) (addr : Nat) : Heap :=
+  { w := { h.w with types := h.w.types.filter (fun p => p.1 ≠ addr) }, names := h.names.filter (fun p => p.1 ≠ addr) }
+
+/-- the four lookups -/
+inductive Look where
+  | inst | impl | meth (k : Nat) | implMeth (k : Nat)
+deriving DecidableEq, Repr, Inhabited
+
+def Look.op : Look → Cls → Op
+  | .inst, c => .lookup c
+  | .impl, c => .implements c
+  | .meth k, c => .methodAt c k
+  | .implMeth k, c => .implementsMethodAt c k
+
+/-- histories over SEVERAL type objects: lookups (type-level entry points; the object-level ones are these on
+    `type_of(self)`, `C08_entry_points`), white-box resets, casts of objects, constructions / re-constructions in place
+    (of types AND of type objects used as classes by other types), deletions -/
+inductive HOp where
+  | look (tid : Nat) (l : Look) (c : CRef)
+  | reset (tid : Nat)
+  | cast (tid ty : Nat)                 -- cast(an object whose type is `tid`, type object `ty`)
+  | castType (tid ty : Nat)             -- cast(the type object `tid` itself, type object `ty`)
+  | construct (addr : Nat) (name : String) (es : List (String × Inst))
+  | delete (addr : Nat)
+deriving DecidableEq, Repr, Inhabited
+
+inductive HObs where
+  | look (o : Obs)
+  | cast (r : Outcome CastRes)
+  | constructed (r : Outcome Unit)
+  | unit
+  | ub                                  -- a dead type object or a dead class object is used
+deriving DecidableEq, Repr, Inhabited
+
+def castClsLib : Cls := ⟨0, "Cast"⟩
+
+/-- one world-level lookup through the entry points of the library -/
+def lookW (w : World) (tid : Nat) (l : Look) (cls : Cls) : World × Obs :=
+  match l with
+  | .inst => let r := typeInstanceW w (.typeObj tid) cls; (r.1, .inst r.2)
+  | .impl =>
+    let r := typeScanW w (.typeObj tid) cls
+    (r.1, .bool (match r.2 with | .ok v => .ok v.isSome | .raised e => .raised e | .ub => .ub))
+  | .meth k => let r := typeMethodAtW w (.typeObj tid) cls k; (r.1, .meth r.2)
+  | .implMeth k => let r := typeImplementsMethodAtW w (.typeObj tid) cls k; (r.1, .bool r.2)
+
+def Heap.step (L : Layout) (h : Heap) : HOp → Heap × HObs
+  | .look tid l c =>
+    match h.w.get tid, h.resolve c with
+    | some _, some cls => let r := lookW h.w tid l cls; ({ h with w := r.1 }, .look r.2)
+    | _, _ => (h, .ub)
+  | .reset tid =>
+    match h.w.get tid with
+    | some t => ({ h with w := h.w.put tid (reset t) }, .unit)
+    | none => (h, .ub)
+  | .cast tid ty =>
+    match h.w.get tid with
+    | some _ => let r := castW castClsLib h.w (.obj .good tid) ty; ({ h with w := r.1 }, .cast r.2)
+    | none => (h, .ub)
+  | .castType tid ty =>
+    match h.w.get tid, h.w.get h.w.theType with
+    | some _, some _ => let r := castW castClsLib h.w (.typeObj tid) ty; ({ h with w := r.1 }, .cast r.2)
+    | _, _ => (h, .ub)
+  | .construct addr name es => let r := h.construct L addr name es; (r.1, .constructed r.2)
+  | .delete addr => (h.delete addr, .unit)
+
+def Heap.run (L : Layout) : Heap → List HOp → Heap × List HObs
+  | h, [] => (h, [])
+  | h, op :: ops =>
+    let r := h.step L op
+    let rs := Heap.run L r.1 ops
+    (rs.1, r.2 :: rs.2)
+
+/-- all `cls` words of a record -/
+def memosOf (t : TypeRec) : List Cls := t.entries.filterMap (·.memo)
+
+/-- **the hypothesis under which a write of `__Name` at `addr` is harmless**: every `cls` word of every record that holds
+    the address already reads as a class of that name (vacuous when no record memoises the address: a class nobody has
+    looked up yet, or after the caches were reset; true when the type object is re-constructed under its old name) -/
+def Heap.nameWriteSafe (h : Heap) (addr : Nat) (name : String) : Bool :=
+  h.w.types.all (fun p => (memosOf p.2).all (fun c => c.id ≠ addr + 1 || c.name = name))
+
+/-- the executable side condition of a history: evaluated on the states the history itself produces -/
+def Heap.safe (L : Layout) : Heap → List HOp → Bool
+  | _, [] => true
+  | h, op :: ops =>
+    (match op with
+     | .construct addr name es => es.length > L.maxInstances || h.nameWriteSafe addr name
+     | _ => true) && Heap.safe L (h.step L op).1 ops
+
+/-- what a history may depend on: for every address the declaration in force (with the `Terminal` flag) and the name -/
+structure Abs where
+  decl : Nat → Option (Bool × (String → Option Inst))
+  name : Nat → Option String
+
+def Heap.abs (h : Heap) : Abs :=
+  { decl := fun tid => (h.w.get tid).map (fun t => (t.sentinel, declared t.entries)), name := h.nameAt }
+
+def Abs.resolve (a : Abs) : CRef → Option Cls
+  | .lib n => some ⟨0, n⟩
+  | .rt x => (a.name x).map (fun n => ⟨x + 1, n⟩)
+
+def Abs.sent (a : Abs) (tid : Nat) : Bool := ((a.decl tid).map (·.1)).getD false
+
+/-- **Spec of cast** as a function of the declaration of the object's type: the type's own `cast` member if it has one,
+    otherwise `self` exactly for the object's own type and ValueError for any other -/
+def specCast (D : String → Option Inst) (sentT sentTy : Bool) (tid ty : Nat) : Outcome CastRes :=
+  let tail : Outcome CastRes := if tid = ty then .ok .self else .raised (thrown .ValueError [sentT, sentTy])
+  match D castClsLib.name with
+  | none => tail
+  | some c =>
+    match memberAt c 0 with
+    | .ok true => .ok .custom
+    | .ok false => tail
+    | .raised e => .raised e
+    | .ub => .ub
+
+/-- **Spec of a history over several type objects**: a function of the declarations and names only -/
+def specHeap (maxInstances : Nat) (theType : Nat) : Abs → List HOp → List HObs
+  | _, [] => []
+  | a, .look tid l c :: ops =>
+    (match a.decl tid, a.resolve c with
+     | some d, some cls => HObs.look (specObs d.1 d.2 (l.op cls))
+     | _, _ => .ub) :: specHeap maxInstances theType a ops
+  | a, .reset tid :: ops => (if (a.decl tid).isSome then HObs.unit else .ub) :: specHeap maxInstances theType a ops
+  | a, .cast tid ty :: ops =>
+    (match a.decl tid with
+     | some d => HObs.cast (specCast d.2 d.1 (a.sent ty) tid ty)
+     | none => .ub) :: specHeap maxInstances theType a ops
+  | a, .castType tid ty :: ops =>
+    (match a.decl tid, a.decl theType with
+     | some _, some dT => HObs.cast (specCast dT.2 dT.1 (a.sent ty) theType ty)
+     | _, _ => .ub) :: specHeap maxInstances theType a ops
+  | a, .construct addr name es :: ops =>
+    if es.length > maxInstances then .constructed (.raised .OutOfMemoryError) :: specHeap maxInstances theType a ops
+    else .constructed (.ok ()) :: specHeap maxInstances theType
+      { decl := fun x => if x = addr then some (a.sent addr, declOf es) else a.decl x,
+        name := fun x => if x = addr then some name else a.name x } ops
+  | a, .delete addr :: ops =>
+    .unit :: specHeap maxInstances theType
+      { decl := fun x => if x = addr then none else a.decl x, name := fun x => if x = addr then none else a.name x } ops
+
+/-- the executable heap invariant (evaluated by the driver on every state it reaches outside the known finding's
+    territory): every record satisfies `invb`, has `n` cache words, and every `cls` word reads as the class that lives
+    at its address now (or its pointee is dead) -/
+def Heap.okb (n : Nat) (h : Heap) : Bool :=
+  h.w.types.all (fun p => invb h.w.slots p.2 && p.2.cache.length == n &&
+    (memosOf p.2).all (fun c => c.id == 0 || h.nameAt (c.id - 1) == some c.name || h.nameAt (c.id - 1) == none))
 
 end Cello.Dispatch
